@@ -304,6 +304,9 @@ func (p *Prog) IsSubject(fn *ssa.Function) bool {
 	if p.dropped[root] {
 		return false // a helper outside the vocabulary whose every call has been inlined
 	}
+	if p.Norm != nil && fn.Parent() != nil && deadClosure(fn) {
+		return false // a closure outside the vocabulary whose every call has been inlined (kept only as `_ = name`)
+	}
 	var pkgPath string
 	if root.Pkg != nil {
 		pkgPath = root.Pkg.Pkg.Path()
@@ -463,4 +466,82 @@ var shortenRe = regexp.MustCompile(`(^|[(*\[ ,\]])pkg/(versions/1_0/)?`)
 
 func shorten(s string) string {
 	return shortenRe.ReplaceAllString(s, "$1")
+}
+
+// deadClosure: the function literal is created but its value is never called, passed on or stored anywhere it could
+// be read from (what the normalisation leaves behind after inlining every call of a local closure).
+func deadClosure(fn *ssa.Function) bool {
+	parent := fn.Parent()
+	if parent == nil {
+		return false
+	}
+	found := false
+	for _, b := range parent.Blocks {
+		for _, ins := range b.Instrs {
+			var val ssa.Value
+			switch x := ins.(type) {
+			case *ssa.MakeClosure:
+				if x.Fn == ssa.Value(fn) {
+					val = x
+				}
+			}
+			if val == nil {
+				// a literal that captures nothing appears as the function itself, as an operand
+				for _, op := range ins.Operands(nil) {
+					if op != nil && *op == ssa.Value(fn) {
+						if st, isSt := ins.(*ssa.Store); isSt && st.Val == ssa.Value(fn) {
+							if !deadCell(st.Addr) {
+								return false
+							}
+							found = true
+						} else if _, isDbg := ins.(*ssa.DebugRef); !isDbg {
+							return false
+						}
+					}
+				}
+				continue
+			}
+			found = true
+			refs := val.Referrers()
+			if refs == nil {
+				continue
+			}
+			for _, rf := range *refs {
+				switch y := rf.(type) {
+				case *ssa.DebugRef:
+				case *ssa.Store:
+					if y.Val != val || !deadCell(y.Addr) {
+						return false
+					}
+				default:
+					return false
+				}
+			}
+		}
+	}
+	return found
+}
+
+// deadCell: a local variable that is only ever stored to.
+func deadCell(addr ssa.Value) bool {
+	al, ok := addr.(*ssa.Alloc)
+	if !ok {
+		return false
+	}
+	refs := al.Referrers()
+	if refs == nil {
+		return true
+	}
+	for _, rf := range *refs {
+		switch y := rf.(type) {
+		case *ssa.DebugRef:
+		case *ssa.Store:
+			if y.Addr != ssa.Value(al) {
+				return false
+			}
+		default:
+			return false
+		}
+	}
+	return true
 }
